@@ -218,4 +218,49 @@ func init() {
 			return js
 		},
 	})
+	bmcAssumptions := append([]string{
+		"the Go channel runtime, select, close, context cancellation, sync.WaitGroup and the scheduler are MODELLED from their documented semantics (buffered FIFO, rendez-vous as a joint step, any ready select arm may fire, default only if no arm is buffer-ready, send/close on closed panics); the claim is 'golem is right if these behave as documented'",
+		"every interleaving of the bounded configuration is a value of the symbolic schedule; claims hold for runs of the stated configurations only (input length, capacities, worker counts)",
+		"a lexicographic partial-order constraint prunes equivalent interleavings (sound: every Mazurkiewicz trace keeps its minimal linearisation; runs may stop early at any step, so every reachable state is represented)",
+	}, commonAssumptions...)
+	bmcText := "bounded model checking: goroutines of the real code (go/ssa) are turned into control-flow automata by symbolic execution between visible operations; the product is unrolled K steps into one SMT formula whose schedule, inputs, stage functions (uninterpreted) and failure pattern are solver variables; K is raised until no run of K non-stutter steps exists (completeness threshold), so Final conditions are statements about all complete runs of the configuration. "
+	stageJobs := func(hs []string, caps, ns []int, extra map[string]int, k int) []JobSpec {
+		var js []JobSpec
+		for _, h := range hs {
+			for _, c := range caps {
+				for _, n := range ns {
+					p := map[string]int{"cap": c, "n": n}
+					for kk, v := range extra {
+						p[kk] = v
+					}
+					js = append(js, JobSpec{Group: "pipe", Harness: h, Mode: "bmc", Params: p, K: k})
+				}
+			}
+		}
+		return js
+	}
+	reg(&PropSpec{
+		ID: "C05", Level: "model_checking",
+		Explanation: bmcText + "C05: Map, Filter, Take (symbolic n in 0..N+1), TakeWhile, Partition (two independent consumers), Fold (uninterpreted non-commutative operation, symbolic identity), ForEach, Void, FMap (arrow emitting 0..2 values per input), Seq/ToSeq; producer goroutine (send all, then close) and pre-filled Seq input; input capacity 0..2 (3 thorough), input length 0..3 (4 thorough); no cancellation. Consumers assert the j-th received value against the list image; Final asserts counts, closure of every output, exit of all library goroutines.",
+		Assumptions: bmcAssumptions,
+		Jobs: func(tier string) []JobSpec {
+			caps, ns := []int{0, 1, 2}, []int{0, 1, 2, 3}
+			if tier == "thorough" {
+				caps, ns = []int{0, 1, 2, 3}, []int{0, 1, 2, 3, 4}
+			}
+			hs := []string{"VMapPure", "VFilter", "VTake", "VTakeWhile", "VFold", "VForEach"}
+			js := stageJobs(hs, caps, ns, nil, 30)
+			js = append(js, stageJobs(hs, []int{0}, ns, map[string]int{"seq": 1}, 30)...)
+			js = append(js, stageJobs([]string{"VForEach"}, caps, ns, map[string]int{"void": 1}, 30)...)
+			// two consumers / nested sends: one element fewer in the quick tier
+			hns := ns[:len(ns)-1]
+			js = append(js, stageJobs([]string{"VPartition"}, caps, hns, nil, 40)...)
+			js = append(js, stageJobs([]string{"VPartition"}, []int{0}, hns, map[string]int{"seq": 1}, 40)...)
+			fns := hns[:len(hns)-1]
+			js = append(js, stageJobs([]string{"VFMap"}, caps, fns, nil, 40)...)
+			js = append(js, stageJobs([]string{"VFMap"}, []int{0}, hns, map[string]int{"seq": 1}, 40)...)
+			js = append(js, stageJobs([]string{"VSeqToSeq"}, []int{0}, ns, nil, 12)...)
+			return js
+		},
+	})
 }
